@@ -48,6 +48,37 @@ func refRefuse(ver map[uint32]int, forks []Fork, build int) (bool, string) {
 	return false, ""
 }
 
+// legacyHoleAboveTrackedFork: the reference predicate refuses, and every reason is a pre-tracking
+// height strictly above a fork height that itself was synced by an adequate tracking build (the
+// implementation only marks fork heights, so it cannot see such a hole).
+func legacyHoleAboveTrackedFork(ver map[uint32]int, forks []Fork, build int) bool {
+	for _, v := range ver {
+		if v > build {
+			return false // a downgrade is another matter
+		}
+	}
+	found := false
+	for _, f := range forks {
+		if f.MinVer <= -1 {
+			continue
+		}
+		for h, v := range ver {
+			if h < f.Height || v >= f.MinVer {
+				continue
+			}
+			// an offending height of fork f
+			if v != -1 || h == f.Height {
+				return false
+			}
+			if fv, ok := ver[f.Height]; !ok || fv < f.MinVer {
+				return false
+			}
+			found = true
+		}
+	}
+	return found
+}
+
 func syncVersionRows(db *sql.DB) map[uint32]int {
 	out := map[uint32]int{}
 	rows, err := db.Query(`SELECT height, version FROM pn_sync_version`)
@@ -73,6 +104,7 @@ func runVersionLock(c vlCase, classes map[string]bool) string {
 	forks := append([]Fork{{0, -1}}, c.Forks...)
 	chain := &Chain{Start: c.Start, Tip: c.Start + 200}
 	ver := map[uint32]int{} // model: which version synced which height
+	holeSeen := false
 	synced := c.Start
 	for si, s := range c.Sessions {
 		era := ModernEra(c.Start)
@@ -119,7 +151,12 @@ func runVersionLock(c vlCase, classes map[string]bool) string {
 					}
 				}
 			}
-			if got != want {
+			if want && !got && deviates("C19/legacy-hole-above-fork") && legacyHoleAboveTrackedFork(ver, forks, s.Version) {
+				// registered finding, exactly: every reason to refuse is a height synced by a pre-tracking
+				// build strictly above a fork whose own height carries an adequate tracked version
+				classes["accepted(registered finding legacy-hole-above-fork)"] = true
+				holeSeen = true
+			} else if got != want {
 				if want {
 					return fmt.Sprintf("session %d (build %d) was accepted but must be refused: %s; case=%+v", si, s.Version, why, c)
 				}
@@ -130,7 +167,9 @@ func runVersionLock(c vlCase, classes map[string]bool) string {
 				classes["refused"] = true
 				continue
 			}
-			classes["accepted"] = true
+			if !holeSeen {
+				classes["accepted"] = true
+			}
 		} else if err != nil {
 			return "harness: legacy session could not open: " + err.Error()
 		}
@@ -202,7 +241,8 @@ func genVLCase(t *rapid.T) vlCase {
 	total := 0
 	for i := 0; i < ns; i++ {
 		s := vlSession{Blocks: rapid.IntRange(0, 6).Draw(t, "blocks")}
-		if i < legacyPrefix {
+		if i < legacyPrefix || rapid.IntRange(0, 7).Draw(t, "legacyMid") == 0 {
+			// a build that predates version tracking, as a prefix or run again in the middle of the history
 			s.Version = -1
 		} else {
 			s.Version = rapid.IntRange(0, 4).Draw(t, "version")
@@ -255,6 +295,9 @@ func TestC19(t *testing.T) {
 		if classes["refused(registered finding fork-below-start)"] {
 			st.Exclude("C19/fork-below-start")
 		}
+		if classes["accepted(registered finding legacy-hole-above-fork)"] {
+			st.Exclude("C19/legacy-hole-above-fork")
+		}
 		nt := ""
 		if vlNonTrivial(c) {
 			nt = fmt.Sprintf("%+v", c)
@@ -282,7 +325,7 @@ func TestC19(t *testing.T) {
 	})
 	if tier() == "thorough" {
 		// small scope, exhaustively, split over the shards by history index: <= 3 sessions x <= 2 blocks x
-		// versions 0..2 (first may predate tracking; tracking builds also with the check disabled) x <= 1 fork
+		// versions 0..2 or pre-tracking, anywhere in the history (tracking builds also with the check disabled) x <= 1 fork
 		shard, nshards := 0, 1
 		fmt.Sscan(os.Getenv("VERIF_SHARD"), &shard)
 		fmt.Sscan(os.Getenv("VERIF_NSHARDS"), &nshards)
@@ -317,9 +360,6 @@ func TestC19(t *testing.T) {
 					return
 				}
 				for _, v := range versions {
-					if v < 0 && depth > 0 {
-						continue
-					}
 					for _, force := range []bool{false, true} {
 						if force && v < 0 {
 							continue
@@ -342,6 +382,14 @@ func TestC19(t *testing.T) {
 func init() {
 	RegisterProbe("C19/fork-below-start", func() (bool, string, interface{}) {
 		c := vlCase{Start: 50, Forks: []Fork{{Height: 48, MinVer: 1}}, Sessions: []vlSession{{Version: 1, Blocks: 3}, {Version: 1, Blocks: 2}, {Version: 1, Blocks: 0}}}
+		ModelStrict = true
+		defer func() { ModelStrict = false }()
+		msg := runVersionLock(c, map[string]bool{})
+		return msg != "", msg, c
+	})
+	RegisterProbe("C19/legacy-hole-above-fork", func() (bool, string, interface{}) {
+		// build 1 syncs 50..54 across the fork at 52, a pre-tracking build syncs 55..56, build 1 starts again
+		c := vlCase{Start: 50, Forks: []Fork{{Height: 52, MinVer: 1}}, Sessions: []vlSession{{Version: 1, Blocks: 4}, {Version: -1, Blocks: 2}, {Version: 1, Blocks: 0}}}
 		ModelStrict = true
 		defer func() { ModelStrict = false }()
 		msg := runVersionLock(c, map[string]bool{})
